@@ -307,7 +307,12 @@ func (p DHCP4) AppendOptions(options DHCP4Options, order []byte) int {
 		byte(DHCP4OptionStaticRoute),
 		byte(DHCP4OptionRouter),
 	}
-	order = append(order, optionsReplyParametersList...)
+	// RFC 2132: the subnet mask must precede the router option whatever order the client asked for.
+	// Build a new slice: order usually points into the request packet and must not be appended to.
+	ordered := make([]byte, 0, len(order)+len(optionsReplyParametersList)+1)
+	ordered = append(ordered, byte(DHCP4OptionSubnetMask))
+	ordered = append(ordered, order...)
+	order = append(ordered, optionsReplyParametersList...)
 
 	// first copy parameters in order
 	for _, code := range order {
